@@ -74,13 +74,13 @@ def render(case, model, tipmode):
     tree = case["tree"]
     nwk = "(" + newick(tree[1]) + "," + newick(tree[2]) + ");"
     n = len(names)
-    subst = {"HKY": {"id": "sm", "type": "HKY", "kappa": {"id": "k", "type": "Parameter", "tensor": [3.0]},
-                     "frequencies": {"id": "f", "type": "Parameter", "tensor": [0.1, 0.2, 0.3, 0.4]}},
-             "GTR": {"id": "sm", "type": "GTR", "rates": {"id": "r", "type": "Parameter", "tensor": [0.4, 2.1, 0.7, 1.3, 3.0, 1.0]},
-                     "frequencies": {"id": "f", "type": "Parameter", "tensor": [0.35, 0.15, 0.2, 0.3]}},
+    subst = {"HKY": {"id": "sm", "type": "HKY", "kappa": {"id": "sm.kappa", "type": "Parameter", "tensor": [3.0]},
+                     "frequencies": {"id": "sm.freqs", "type": "Parameter", "tensor": [0.1, 0.2, 0.3, 0.4]}},
+             "GTR": {"id": "sm", "type": "GTR", "rates": {"id": "sm.rates", "type": "Parameter", "tensor": [0.4, 2.1, 0.7, 1.3, 3.0, 1.0]},
+                     "frequencies": {"id": "sm.freqs", "type": "Parameter", "tensor": [0.35, 0.15, 0.2, 0.3]}},
              "NONREV": {"id": "sm", "type": "GeneralNonSymmetricSubstitutionModel", "data_type": "dt",
-                        "mapping": list(range(12)), "rates": {"id": "r", "type": "Parameter", "tensor": [1.0, 2.0, 0.3, 0.7, 1.5, 3.0, 0.2, 0.9, 1.1, 2.5, 0.6, 1.7]},
-                        "frequencies": {"id": "f", "type": "Parameter", "tensor": [0.3, 0.2, 0.1, 0.4]}}}[model]
+                        "mapping": list(range(12)), "rates": {"id": "sm.rates", "type": "Parameter", "tensor": [1.0, 2.0, 0.3, 0.7, 1.5, 3.0, 0.2, 0.9, 1.1, 2.5, 0.6, 1.7]},
+                        "frequencies": {"id": "sm.freqs", "type": "Parameter", "tensor": [0.3, 0.2, 0.1, 0.4]}}}[model]
     like = {"id": "like", "type": "TreeLikelihoodModel",
             "tree_model": {"id": "tree", "type": "UnRootedTreeModel", "newick": nwk, "taxa": "taxa", "keep_branch_lengths": True,
                            "branch_lengths": {"id": "bl", "type": "Parameter", "tensor": [0.0] * (2 * n - 3)}},
